@@ -52,6 +52,11 @@ class _Return(Exception):
         self.value = value
 
 
+class Imprecise(AnalysisError):
+    """the evaluated code renders the unknown value in a way that depends on its magnitude (e.g. a binary text padded to
+    fewer digits than the value has bits): there is no single result for all values"""
+
+
 class NeedBit(Exception):
     """evaluation cannot go on without knowing bit `index` of the unknown value: the caller splits on it"""
 
@@ -122,6 +127,34 @@ def _bitop(op, a, b, node):
     return SymVec(out)
 
 
+class SymStr(tuple):
+    """a text some of whose characters are not known: items are one-character strings or bit symbols ("v", i) (the binary
+    digit of an unknown bit).  Produced by formatting a SymVec in binary with an explicit width."""
+
+    def __repr__(self):
+        return "'" + "".join(c if isinstance(c, str) else "v" for c in self) + "'"
+
+
+class SymBin:
+    """`f"{v:b}"` of an unknown integer: its binary digits without leading zeros - how many there are is not known, but
+    padded with zeros to at least n digits (`.zfill(n)`) it is the n-digit form whenever v < 2**n"""
+
+    def __init__(self, vec):
+        self.vec = vec
+
+
+def _as_chars(x):
+    if isinstance(x, SymStr):
+        return list(x)
+    if isinstance(x, str):
+        return list(x)
+    return None
+
+
+def _mk_text(chars):
+    return "".join(chars) if all(isinstance(c, str) for c in chars) else SymStr(chars)
+
+
 class Raised(Exception):
     """the evaluated function raises"""
 
@@ -151,6 +184,7 @@ class Interp:
                 self.mod_consts[st.targets[0].id] = st.value
         self.steps = 0
         self.max_steps = max_steps
+        self.yields = []
 
     # ------------------------------------------------------------------ entry
     def call(self, fn: ast.FunctionDef, args, kwargs=None):
@@ -186,6 +220,10 @@ class Interp:
         self.tick(st)
         if isinstance(st, ast.Expr):
             if isinstance(st.value, ast.Constant):
+                return
+            if isinstance(st.value, ast.Yield):
+                # a generator is run to its end; what it yields is collected
+                self.yields.append(self.ev(st.value.value, env) if st.value.value is not None else None)
                 return
             self.ev(st.value, env)
             return
@@ -300,7 +338,7 @@ class Interp:
 
     def iterate(self, v, node):
         if isinstance(v, (list, tuple, str, bytes)):
-            return list(v)
+            return list(v)   # (SymStr is a tuple of characters / digit symbols)
         if isinstance(v, dict):
             return list(v.keys())
         if isinstance(v, _View):
@@ -501,8 +539,47 @@ class Interp:
         if isinstance(e, ast.Call):
             return self.callexpr(e, env)
         if isinstance(e, ast.JoinedStr):
-            return "<text>"
+            return self.fstring(e, env)
         raise AnalysisError(f"minieval: unmodelled expression `{norm(e)[:60]}`")
+
+    def fstring(self, e, env):
+        """f-strings over known values are formatted; an unknown integer can be written in binary with an explicit width
+        (one symbol per digit); anything else stays an opaque text (as before)"""
+        chars = []
+        try:
+            for part in e.values:
+                if isinstance(part, ast.Constant):
+                    chars.extend(str(part.value))
+                    continue
+                v = self.ev(part.value, env)
+                spec = ""
+                if part.format_spec is not None:
+                    sp = self.fstring(part.format_spec, env)
+                    if not isinstance(sp, str) or sp == "<text>":
+                        return "<text>"
+                    spec = sp
+                if isinstance(v, SymVec):
+                    import re as _re
+                    m = _re.fullmatch(r"0(\d+)b", spec)
+                    if part.conversion == -1 and spec == "b" and len(e.values) == 1:
+                        return SymBin(v)
+                    if part.conversion != -1 or m is None:
+                        return "<text>"
+                    w = int(m.group(1))
+                    if any(b != 0 for b in v.bits[w:]):
+                        return "<text>"
+                    chars.extend(("v", b[1]) if isinstance(b, tuple) else str(b) for b in reversed(v.bits[:w]))
+                    continue
+                if isinstance(v, SymStr) and not spec and part.conversion == -1:
+                    chars.extend(v)
+                    continue
+                if isinstance(v, (int, str)) and not isinstance(v, bool) and part.conversion == -1:
+                    chars.extend(format(v, spec))
+                    continue
+                return "<text>"
+        except (ValueError, TypeError):
+            return "<text>"
+        return _mk_text(chars)
 
     def seq(self, elts, env):
         out = []
@@ -537,6 +614,11 @@ class Interp:
         return a is b
 
     def eq(self, a, b):
+        for x, y in ((a, b), (b, a)):
+            if isinstance(x, tuple) and len(x) == 2 and x[0] == "v" and isinstance(y, str):
+                if y in ("0", "1"):
+                    raise NeedBit(x[1])
+                return False
         if isinstance(a, SymVec) or isinstance(b, SymVec):
             A = a if isinstance(a, SymVec) else SymVec.of(a) if isinstance(a, int) and not isinstance(a, bool) and a >= 0 else None
             B = b if isinstance(b, SymVec) else SymVec.of(b) if isinstance(b, int) and not isinstance(b, bool) and b >= 0 else None
@@ -584,6 +666,29 @@ class Interp:
                     return _View([(k, v) for k, v in obj.items()])
                 if m == "get":
                     return obj.get(args[0], args[1] if len(args) > 1 else None)
+            if isinstance(obj, SymBin) and m == "zfill" and len(args) == 1 and isinstance(args[0], int):
+                w = args[0]
+                if any(b != 0 for b in obj.vec.bits[w:]):
+                    raise Imprecise("the binary text of the value is padded to fewer digits than the word has bits")
+                return _mk_text([("v", b[1]) if isinstance(b, tuple) else str(b) for b in reversed(obj.vec.bits[:w])])
+            if isinstance(obj, (str, SymStr)) and m in ("rjust", "ljust") and 1 <= len(args) <= 2 and isinstance(args[0], int):
+                ch = _as_chars(obj)
+                fill = args[1] if len(args) == 2 else " "
+                pad = [fill] * max(0, args[0] - len(ch))
+                return _mk_text(pad + ch if m == "rjust" else ch + pad)
+            if isinstance(obj, (str, SymStr)) and m == "zfill" and len(args) == 1 and isinstance(args[0], int):
+                ch = _as_chars(obj)
+                return _mk_text(["0"] * max(0, args[0] - len(ch)) + ch)
+            if isinstance(obj, str) and m == "join" and len(args) == 1:
+                out = []
+                for i, piece in enumerate(self.iterate(args[0], e)):
+                    if i:
+                        out.extend(obj)
+                    pc = [piece] if isinstance(piece, tuple) and len(piece) == 2 and piece[0] == "v" else _as_chars(piece)
+                    if pc is None:
+                        raise AnalysisError("minieval: join of a non-text")
+                    out.extend(pc)
+                return _mk_text(out)
             if isinstance(obj, str):
                 if m == "startswith":
                     return obj.startswith(args[0])
@@ -634,6 +739,12 @@ class Interp:
             return out
         if name == "len":
             return len(self.iterate(args[0], e))
+        if name == "zip" and args:
+            return list(zip(*[self.iterate(a, e) for a in args]))
+        if name == "range" and args and all(isinstance(a, int) for a in args):
+            return list(range(*args))
+        if name == "format" and len(args) == 2 and isinstance(args[0], SymVec) and "format" not in self.globals:
+            raise AnalysisError("minieval: format() of the unknown value")
         if name == "iter" and len(args) == 1:
             return _View(list(self.iterate(args[0], e)))
         if name == "bool" and len(args) == 1:
